@@ -49,6 +49,10 @@ SUMMARY = {
 'c08n':'non-match chunks written with a single write(); the unwritten suffix is handed back by rewinding buffer_reported_pos and clearing the done flag: a short write on the final chunk makes the reader be polled again after it reported EOF',
 'c17n':'single-rare-byte prefilter keeps a shared last_scan_at hint read only by the in-loop prefilter call: sequentially always overwritten first, but a search suspended mid-way trusts the position stored by another thread and skips matches (pure interleaving defect)',
 'c18n':'roll bookkeeping deferred in a pending_roll field that the error path does not restore: two failed reads in a row on the same refill skip bytes / shift offsets / panic',
+'c17p':'memmem prefilter remembers (pointer, span end, scan start) of its last fruitless scan of >= 64 bytes in three relaxed atomics shared by clones: stale after the buffer changes in place, torn between threads',
+'c17q':'contiguous NFA caches its last failure-chain transition in an AtomicU64 keyed by (state, class) but not by the anchored flag: an anchored overlapping search after an unanchored one follows a failure transition',
+'c17r':'replace_all_bytes builds its output in a thread-local scratch Vec that is shrunk (not cleared) when it grew beyond 64 KiB: the next replace_all on that thread is prefixed with the previous output',
+'c17s':'AhoCorasick remembers in an AtomicBool that the start-kind consistency check once succeeded and skips it afterwards: a later search in the unsupported anchored mode returns Ok instead of Err',
 'c18a':'fill returns Ok(true) instead of the error when it had already buffered bytes in the same call: one-shot read errors during the initial fill vanish',
 'c18b':'closure errors of kind Interrupted are retried by calling the closure again: error swallowed, partial output duplicated',
 'c18c':'fill commits its new end only after the loop: an error on a later read of one fill discards bytes accepted earlier; polling on shifts all later offsets',
